@@ -91,6 +91,8 @@ prop("C15", "exploration",
      "Trusted: golang/snappy for chunk payloads on both sides (framing is independent); decoding n bytes may allocate at "
      "most 256 MiB + 128 n (alloc-bomb otherwise).",
      [
+         {"test": "TestC15_Compression", "tag": "386", "quick": {"checks": 4000, "shards": 2, "timeout": 300, "goarch": "386"},
+          "thorough": {"checks": 60000, "shards": 8, "timeout": 1500, "goarch": "386"}},
          {"test": "TestC15_Compression", "quick": {"checks": 8000, "shards": 4, "timeout": 200},
           "thorough": {"checks": 80000, "shards": 16, "timeout": 1500}},
          {"test": "TestC15_ClientRoundTrip", "quick": {"checks": 1500, "shards": 4, "timeout": 300},
@@ -266,6 +268,8 @@ prop("C11", "exploration",
      [
          {"test": "TestC11_ClientDecoders", "quick": {"checks": 3000, "shards": 4, "timeout": 300},
           "thorough": {"checks": 100000, "shards": 16, "timeout": 1500}},
+         {"test": "TestC11_Malformed", "tag": "386", "quick": {"checks": 4000, "shards": 2, "timeout": 400, "goarch": "386"},
+          "thorough": {"checks": 40000, "shards": 8, "timeout": 3000, "goarch": "386"}},
          {"test": "TestC11_Malformed", "quick": {"checks": 8000, "shards": 4, "timeout": 400},
           "thorough": {"checks": 100000, "shards": 16, "timeout": 3000}},
          {"fuzz": "FuzzC11Receive", "thorough": {"fuzztime": "120s", "workers": 8, "timeout": 500}},
@@ -321,6 +325,8 @@ prop("C09", "exploration",
      [
          {"test": "TestC09_ConcurrentFailures", "quick": {"checks": 2500, "shards": 4, "timeout": 300},
           "thorough": {"checks": 6000, "shards": 16, "timeout": 3000, "race": True}},
+         {"test": "TestC09_DebugDump", "quick": {"checks": 300, "shards": 4, "timeout": 300},
+          "thorough": {"checks": 3000, "shards": 8, "timeout": 1500, "race": True}},
      ],
      ["interleavings inside the client are sampled, not enumerated"])
 
